@@ -113,6 +113,8 @@ impl ShardContext {
             info!(target: "shard::context", shard_id = id, "WAL recovery completed");
         }
 
+        #[cfg(sneldb_verif)]
+        crate::verif::step("startup.loaded", &format!("\"shard\":{id},\"live\":{:?},\"next_l0\":{},\"mem\":{}", &*ctx.segment_ids.read().unwrap(), ctx.next_l0_id, ctx.memtable.len()));
         ctx
     }
 
